@@ -359,7 +359,8 @@ Local Notation c := (stm p).
 Local Notation ec := (flip (stm p)).
 
 Lemma castle_implies_king_step m : In m (pseudo p) -> mtype m = CASTLING -> is_legal p m = true ->
-  exists m', In m' (pseudo p) /\ is_legal p m' = true /\ mtype m' = NORMAL /\ mover p m' = KING.
+  exists kf tr, kf < 64 /\ at_ b kf = mk_piece c KING /\ In tr (king_targets kf) /\ free_or_enemy b c tr = true /\
+                In (mkmv kf tr NORMAL 3) (pseudo p) /\ is_legal p (mkmv kf tr NORMAL 3) = true.
 Proof.
   intros Hm Hc His. destruct (king_facts p Hlegal) as (K1 & K2 & K3).
   pose proof (legal_wfp p Hlegal) as Hw. pose proof (wf_stm p Hw) as Hcc. pose proof (wf_len p Hw) as Hlen.
@@ -383,8 +384,8 @@ Proof.
   assert (Hm' : In m' (pseudo p)).
   { apply pseudo_of_shape. apply (ps_simple p kf tr KING Hkf); [now right|exact Hk|exact Htk|].
     unfold free_or_enemy. now rewrite Htr0. }
-  exists m'. split; [exact Hm'|]. split; [|split; [reflexivity|]].
-  2:{ unfold mover, piece_at, m'. cbn [mfrom]. rewrite Hk. apply mk_piece_type. unfold KING. lia. }
+  exists kf, tr. split; [exact Hkf|]. split; [exact Hk|]. split; [exact Htk|].
+  split; [unfold free_or_enemy; now rewrite Htr0|]. split; [exact Hm'|]. fold m'.
   (* the king on the transit square is not attacked *)
   assert (Hat : forall a, at_ (brd (make p m')) a = if a =? tr then at_ b kf else if a =? kf then 0 else at_ b a).
   { intros a. now rewrite (at_make_simple p m' Hlen Hkf Htr (or_introl eq_refl) a). }
@@ -600,24 +601,46 @@ Proof.
       apply (pm_cap prom_nq p s t Hin Een Er).
 Qed.
 
-Lemma snd_off x : In x (hl_off p) -> lg x = true -> exists m, In m (pseudo p) /\ is_legal p m = true.
+Lemma hl_off_eq : hl_off p = flat_map (hl_off_pt p) [KNIGHT; BISHOP; ROOK; QUEEN].
+Proof. reflexivity. Qed.
+Lemma hl_off_pt_eq pt : hl_off_pt p pt =
+  flat_map (fun from => to_list from (N.ldiff (att_word p pt from) (occ_word b c))) (sq_list_of_bb (piece_word b c pt)).
+Proof. reflexivity. Qed.
+
+Lemma off_list_in' x : In x (hl_off p) <->
+  exists pt from to, officer pt /\ from < 64 /\ at_ b from = mk_piece c pt /\ In to (spec_targets b pt from) /\
+                     free_or_enemy b c to = true /\ x = mk_code from to NORMAL PT_NONE.
 Proof.
-  intros Hx Hl. destruct (king_facts p Hlegal) as (K1 & K2 & K3).
-  pose proof (legal_wfp p Hlegal) as Hw. pose proof (wf_stm p Hw) as Hc.
-  (* officers *)
-    unfold hl_off in Hx. apply in_flat_map in Hx as [pt [Hpt Hx]].
+  rewrite hl_off_eq, in_flat_map. split.
+  - intros [pt [Hpt Hx]].
     assert (Ho : officer pt).
     { unfold officer. cbn [In] in Hpt.
       destruct Hpt as [E|[E|[E|[E|[]]]]]; [left|right; left|right; right; left|right; right; right]; symmetry; exact E. }
     destruct (officer_lt pt Ho) as (H7 & Hnz & Hr).
-    unfold hl_off_pt in Hx. apply in_flat_map in Hx as [from [Hf Hx]].
+    rewrite hl_off_pt_eq in Hx. apply in_flat_map in Hx as [from [Hf Hx]].
     apply (sq_list_in _ from (piece_word_lt b c pt)) in Hf. apply (piece_bit p pt from Hnz) in Hf as [Hf Hat].
-    apply (to_list_in from _ x (ldiff_lt _ _ (att_word_lt p pt from))) in Hx as [to [Hb ->]].
+    apply (to_list_in from _ x (ldiff_lt _ _ (att_word_lt p pt from))) in Hx as [to [Hb Ex]].
     rewrite N.ldiff_spec in Hb. apply andb_true_iff in Hb as [Hb1 Hb2].
     apply (att_word_bit p pt from to Ho) in Hb1. apply negb_true_iff in Hb2.
     pose proof (spec_targets_lt _ _ _ _ Hb1) as Hto.
-    destruct (piece_cand pt from to Hf (or_introl Hr) Hat Hb1 (own_or_not to Hto Hb2)) as (P1 & P2 & P3).
-    exists (mkmv from to NORMAL 3). split; [exact P1|]. now rewrite <- (lg_code _ P3), <- P2.
+    exists pt, from, to. repeat split; try assumption. now apply own_or_not.
+  - intros (pt & from & to & Ho & Hf & Hat & Ht & Hfe & Ex).
+    destruct (officer_lt pt Ho) as (H7 & Hnz & Hr).
+    exists pt. split; [destruct Ho as [->|[->|[->| ->]]]; cbn [In]; auto|].
+    rewrite hl_off_pt_eq. apply in_flat_map. exists from. split.
+    + apply (sq_list_in _ from (piece_word_lt b c pt)). now apply (piece_bit p pt from Hnz).
+    + apply (to_list_in from _ x (ldiff_lt _ _ (att_word_lt p pt from))). exists to. split; [|exact Ex].
+      pose proof (spec_targets_lt _ _ _ _ Ht) as Hto. rewrite N.ldiff_spec. apply andb_true_iff. split.
+      * now apply (att_word_bit p pt from to Ho).
+      * apply negb_true_iff. now apply not_own.
+Qed.
+
+Lemma snd_off x : In x (hl_off p) -> lg x = true -> exists m, In m (pseudo p) /\ is_legal p m = true.
+Proof.
+  intros Hx Hl. apply off_list_in' in Hx as (pt & from & to & Ho & Hf & Hat & Ht & Hfe & Ex).
+  destruct (officer_lt pt Ho) as (H7 & Hnz & Hr).
+  destruct (piece_cand pt from to Hf (or_introl Hr) Hat Ht Hfe) as (P1 & P2 & P3).
+  eexists. split; [exact P1|]. rewrite <- (lg_code _ P3), <- P2, <- Ex. exact Hl.
 Qed.
 
 Lemma snd_epw x : In x (ep_comp p DW) -> lg x = true -> exists m, In m (pseudo p) /\ is_legal p m = true.
@@ -640,8 +663,125 @@ Qed.
 Lemma cand_sound x : In x (hl_cands p) -> lg x = true -> exists m, In m (pseudo p) /\ is_legal p m = true.
 Proof.
   intros Hx Hl. apply in_cands in Hx. destruct Hx as [Hx|[Hx|[Hx|[Hx|[Hx|[Hx|[Hx|Hx]]]]]]].
-  - now apply snd_king. - now apply snd_double. - now apply snd_push. - now apply snd_capw.
-  - now apply snd_cape. - now apply snd_off. - now apply snd_epw. - now apply snd_epe.
+  - exact (snd_king x Hx Hl). - exact (snd_double x Hx Hl). - exact (snd_push x Hx Hl). - exact (snd_capw x Hx Hl).
+  - exact (snd_cape x Hx Hl). - exact (snd_off x Hx Hl). - exact (snd_epw x Hx Hl). - exact (snd_epe x Hx Hl).
 Qed.
 
 End Exact.
+
+Section Exact2.
+Variable prom_nq : bool.
+Variable p : pos.
+Hypothesis Hlegal : legal_pos p = true.
+Local Notation b := (brd p).
+Local Notation c := (stm p).
+Local Notation k0 := (king_sq (brd p) (stm p)).
+Local Notation lg := (spec_legal_code p).
+
+Lemma king_cand k to : k < 64 -> at_ b k = mk_piece c KING -> In to (king_targets k) -> free_or_enemy b c to = true ->
+  is_legal p (mkmv k to NORMAL 3) = true -> exists x, In x (hl_cands p) /\ lg x = true.
+Proof.
+  intros Hk Hat Ht Hf Hl. destruct (king_facts p Hlegal) as (K1 & K2 & K3).
+  assert (Ek : k = k0) by now apply K3. subst k.
+  destruct (king_step_pseudo p _ to K1 K2 Ht Hf) as (P1 & P2 & P3).
+  exists (mk_code k0 to NORMAL PT_NONE). split.
+  - apply in_cands. left. rewrite (hl_king_eq p). now apply (king_list_intro p Hlegal _ k0 to).
+  - rewrite P2, (lg_code p _ P3). exact Hl.
+Qed.
+
+Lemma pawn_push_cand s t : s < 64 -> at_ b s = mk_piece c PAWN -> step (fwd c) s = Some t -> at_ b t = 0 ->
+  is_legal p (mkmv s t NORMAL 3) = true -> exists x, In x (hl_cands p) /\ lg x = true.
+Proof.
+  intros Hs Hat E E0 Hl. assert (Ht : t < 64) by now apply step_lt in E.
+  exists (mk_code s t NORMAL PT_NONE). split.
+  - apply in_cands. right. right. left. unfold hl_push.
+    apply (loop_in p (push_word p) (fwd c) normal1 _ (push_word_lt p)).
+    + intros u Hu. apply push_word_bit in Hu as [s' [Hs' [E' _]]]. now exists s'.
+    + exists s, t. split; [now split|]. split; [exact E|]. split; [|now left].
+      apply push_word_bit. exists s. repeat split; assumption.
+  - rewrite (mk_code_normal s t Hs Ht), (lg_code p _ (valid_normal s t Hs Ht)). exact Hl.
+Qed.
+
+Lemma pawn_cap_cand s t : s < 64 -> at_ b s = mk_piece c PAWN -> In t (pawn_attack_targets c s) -> enemy b c t = true ->
+  is_legal p (mkmv s t NORMAL 3) = true -> exists x, In x (hl_cands p) /\ lg x = true.
+Proof.
+  intros Hs Hat Hin Een Hl. pose proof (wf_stm p (legal_wfp p Hlegal)) as Hc.
+  assert (Ht : t < 64) by now apply pawn_targets_lt in Hin.
+  exists (mk_code s t NORMAL PT_NONE). split.
+  - apply in_cands. apply (pawn_targets_dirs c s t Hc) in Hin. destruct Hin as [E|E].
+    + right. right. right. left. unfold hl_cap.
+      apply (loop_in p (cap_word p DW) (capdir c DW) normal1 _ (cap_word_lt p DW)).
+      * intros u Hu. apply (cap_word_bit p Hlegal) in Hu as [s' [Hs' [E' _]]]. now exists s'.
+      * exists s, t. split; [now split|]. split; [exact E|]. split; [|now left].
+        apply (cap_word_bit p Hlegal). exists s. repeat split; assumption.
+    + right. right. right. right. left. unfold hl_cap.
+      apply (loop_in p (cap_word p DE) (capdir c DE) normal1 _ (cap_word_lt p DE)).
+      * intros u Hu. apply (cap_word_bit p Hlegal) in Hu as [s' [Hs' [E' _]]]. now exists s'.
+      * exists s, t. split; [now split|]. split; [exact E|]. split; [|now left].
+        apply (cap_word_bit p Hlegal). exists s. repeat split; assumption.
+  - rewrite (mk_code_normal s t Hs Ht), (lg_code p _ (valid_normal s t Hs Ht)). exact Hl.
+Qed.
+
+Lemma class_cand k m : In m (pseudo p) -> cls prom_nq p m = N.of_nat k -> is_legal p m = true ->
+  (In (code m) (class_codes prom_nq p k) -> In (code m) (hl_cands p)) -> exists x, In x (hl_cands p) /\ lg x = true.
+Proof.
+  intros Hm Hc Hl Hin. exists (code m). split.
+  - apply Hin. apply class_codes_in. now exists m.
+  - rewrite (lg_code p m (pseudo_valid p m (legal_wfp p Hlegal) Hm)). exact Hl.
+Qed.
+
+Lemma cand_complete m : In m (pseudo p) -> is_legal p m = true -> exists x, In x (hl_cands p) /\ lg x = true.
+Proof.
+  intros Hm Hl. pose proof (legal_wfp p Hlegal) as Hw. pose proof (wf_stm p Hw) as Hc.
+  pose proof (pseudo_shape p m Hw Hm) as Hsh.
+  destruct Hsh as [s t ty Hs Hty E Ht Hf|s m Hs E Hpm|m Hcm].
+  - (* king and officers *)
+    destruct Hty as [Hty|Hty].
+    + exists (mk_code s t NORMAL PT_NONE). pose proof (spec_targets_lt _ _ _ _ Ht) as Ht64. split.
+      * apply in_cands. do 5 right. left. apply (off_list_in' p Hlegal). exists ty, s, t.
+        repeat split; try assumption; try reflexivity.
+        unfold officer, KNIGHT, BISHOP, ROOK, QUEEN. clear - Hty. lia.
+      * rewrite (mk_code_normal s t Hs Ht64), (lg_code p _ (valid_normal s t Hs Ht64)). exact Hl.
+    + subst ty. rewrite spec_targets_king in Ht. now apply (king_cand s t).
+  - (* pawns *)
+    apply (proj1 (pawn_moves_pmove prom_nq p s m)) in Hpm. destruct Hpm as [k Hk].
+    pose proof (pmove_cls prom_nq p s m k Hc Hs E Hk) as Hcls.
+    destruct Hk as [t E1 E0 Hr|t pr E1 E0 Hr Hpr|t u E1 E0 Es E2 Eu|t Ht Een Hr|t pr Ht Een Hr Hpr|t Ht Een Ee E0].
+    + now apply (pawn_push_cand s t).
+    + assert (Ht64 : t < 64) by now apply step_lt in E1.
+      apply (pawn_push_cand s t Hs E E1 E0).
+      rewrite (normal_probe_legal p Hlegal s t pr Hs Ht64 E (or_introl E0) Hpr). exact Hl.
+    + apply (class_cand 10 _ Hm Hcls Hl). intros Hin. apply in_cands. right. left. now apply (double_class prom_nq p Hlegal).
+    + now apply (pawn_cap_cand s t).
+    + assert (Ht64 : t < 64) by now apply pawn_targets_lt in Ht.
+      apply (pawn_cap_cand s t Hs E Ht Een).
+      assert (Hto : at_ b t = 0 \/ (at_ b t <> 0 /\ colour_of (at_ b t) <> c)).
+      { right. unfold enemy in Een. apply andb_true_iff in Een as [A B]. apply negb_true_iff, N.eqb_neq in A, B. now split. }
+      rewrite (normal_probe_legal p Hlegal s t pr Hs Ht64 E Hto Hpr). exact Hl.
+    + destruct (file_of s <? file_of t) eqn:Ef.
+      * apply (class_cand 4 _ Hm Hcls Hl). intros Hin. apply in_cands. do 6 right. left.
+        now apply (comp_class prom_nq p Hlegal 4 _ ltac:(lia)).
+      * apply (class_cand 5 _ Hm Hcls Hl). intros Hin. apply in_cands. do 7 right.
+        now apply (comp_class prom_nq p Hlegal 5 _ ltac:(lia)).
+  - (* castling: the king step onto the transit square is legal as well *)
+    assert (Hct : mtype m = CASTLING) by (now apply castle_moves_valid in Hcm).
+    destruct (castle_implies_king_step p Hlegal m Hm Hct Hl) as (kf & tr & Hkf & Hk & Htk & Hf & _ & Hl').
+    now apply (king_cand kf tr).
+Qed.
+
+Theorem has_legal_move_exact :
+  has_legal_move_impl (view_of_spec p) (spec_legal_code p) =
+  Some (negb (match legal p with [] => true | _ => false end)).
+Proof.
+  rewrite (has_legal_candidates p Hlegal). f_equal.
+  destruct (legal p) as [|m0 r] eqn:El; cbn [negb].
+  - destruct (existsb lg (hl_cands p)) eqn:Ex; [exfalso|reflexivity].
+    apply existsb_exists in Ex as [x [Hx Hl]]. destruct (cand_sound prom_nq p Hlegal x Hx Hl) as [m [Hm Hlm]].
+    assert (Hin : In m (legal p)) by (apply filter_In; now split). rewrite El in Hin. destruct Hin.
+  - assert (Hin : In m0 (legal p)) by (rewrite El; now left). apply filter_In in Hin as [Hm Hl].
+    destruct (cand_complete m0 Hm Hl) as [x [Hx Hlx]]. apply existsb_exists. now exists x.
+Qed.
+
+End Exact2.
+
+Print Assumptions has_legal_move_exact.
